@@ -6,7 +6,19 @@ import (
 	"hash"
 
 	remoteexecution "github.com/bazelbuild/remote-apis/build/bazel/remote/execution/v2"
+	vnd "github.com/buildbarn/bb-storage/internal/verifnd"
 )
+
+var verifOriginalFactories = map[*bareFunction]func(int64) hash.Hash{}
+
+func init() {
+	// native replays of one run share a process: undo hasher swaps between replays
+	vnd.RegisterReset(func() {
+		for bf, f := range verifOriginalFactories {
+			bf.hasherFactory = f
+		}
+	})
+}
 
 // VerifSetHasherFactory swaps the cryptographic primitive behind a digest
 // function (the hasherFactory field of its bareFunction) for a harness model
@@ -15,6 +27,9 @@ import (
 func VerifSetHasherFactory(digestFunction remoteexecution.DigestFunction_Value, f func(expectedSizeBytes int64) hash.Hash) (restore func()) {
 	bf := getBareFunction(digestFunction, 0)
 	old := bf.hasherFactory
+	if _, ok := verifOriginalFactories[bf]; !ok {
+		verifOriginalFactories[bf] = old
+	}
 	bf.hasherFactory = f
 	return func() { bf.hasherFactory = old }
 }
